@@ -417,6 +417,13 @@ func (lb *LoadBalancer) AddBackend(backendCfg config.BackendConfig) error {
 	lb.mutex.Lock()
 	defer lb.mutex.Unlock()
 
+	// Backend names identify backends (removal, metrics, health counters)
+	for _, existing := range lb.strategy.GetBackends() {
+		if existing.Name == backendCfg.Name {
+			return fmt.Errorf("backend %s already exists", backendCfg.Name)
+		}
+	}
+
 	// Parse the backend URL
 	backendURL, err := url.Parse(backendCfg.Address)
 	if err != nil {
